@@ -155,6 +155,18 @@ def extract(cfgname, opts, only_units=None):
         shutil.rmtree(outdir, ignore_errors=True)
 
 
+def init_h(opts):
+    """the generated solver/init.h of a configuration (configure only: works for configurations whose units do not compile)."""
+    scratch = tempfile.mkdtemp(prefix='orv-cfg-')
+    try:
+        _configure(opts, scratch)
+        p = os.path.join(scratch, 'solver', 'init.h')
+        with open(p) as fh:
+            return fh.read()
+    finally:
+        shutil.rmtree(scratch, ignore_errors=True)
+
+
 def _prune_cache(keep):
     if not os.path.isdir(CACHE):
         return
